@@ -147,6 +147,58 @@ theorem varRule_total_err (input : ℝ) (msgs : List (Nat × ℝ)) :
     nlinarith
   linarith
 
+/-- `send_var_messages_no_clip` under rounding: the message to each check, `fl(total̃ − own)` -/
+theorem varRule_msgs_err (input : ℝ) (msgs : List (Nat × ℝ)) (m : Nat × ℝ) (hm : m ∈ msgs) :
+    ∃ o ∈ (varRule (Sc.rounded M) input msgs).2, o.1 = m.1 ∧
+      |o.2 - ((varRule Sc.real input msgs).1 - m.2)| ≤
+        ((b M) ^ (msgs.length + 2) - 1) * (|input| + ((msgs.map (·.2)).map (fun x => |x|)).sum + |m.2|) := by
+  have hT := varRule_total_err M input msgs
+  set L := (varRule (Sc.rounded M) input msgs).1 with hL
+  set T := (varRule Sc.real input msgs).1 with hTd
+  set A := |input| + ((msgs.map (·.2)).map (fun x => |x|)).sum with hA
+  have hA0 : 0 ≤ A := by
+    have : 0 ≤ ((msgs.map (·.2)).map (fun x => |x|)).sum :=
+      List.sum_nonneg (by intro a ha; simp only [List.mem_map] at ha; obtain ⟨z, _, rfl⟩ := ha; exact abs_nonneg z)
+    rw [hA]; positivity
+  refine ⟨(m.1, M.fl (L - m.2)), ?_, rfl, ?_⟩
+  · unfold varRule
+    simp only [List.mem_map]
+    exact ⟨m, hm, rfl⟩
+  · simp only []
+    obtain ⟨δ, hδ, hfl⟩ := fl_eq M (L - m.2)
+    have hδ' := abs_le.mp hδ
+    rw [hfl]
+    set P := (b M) ^ (msgs.length + 1) with hP
+    have hP1 : 1 ≤ P := one_le_pow₀ (one_le_b M)
+    have hb := one_add_le_b M
+    have hu := M.u_nonneg
+    have hTabs : |T| ≤ A := by
+      rw [hTd]; unfold varRule
+      simp only [real_add, BoxL.sum_real]
+      refine le_trans (abs_add_le _ _) ?_
+      have := list_abs_sum_le (msgs.map (·.2))
+      rw [hA]; linarith
+    have e : (L - m.2) * (1 + δ) - (T - m.2) = (L - T) * (1 + δ) + (T - m.2) * δ := by ring
+    rw [e, pow_succ]
+    have h1 : |(L - T) * (1 + δ)| ≤ (P - 1) * A * (1 + M.u) := by
+      rw [abs_mul]
+      have : |1 + δ| ≤ 1 + M.u := by rw [abs_le]; constructor <;> linarith
+      exact mul_le_mul hT this (abs_nonneg _) (mul_nonneg (by linarith) hA0)
+    have h2 : |(T - m.2) * δ| ≤ (A + |m.2|) * M.u := by
+      rw [abs_mul]
+      refine mul_le_mul ?_ hδ (abs_nonneg _) (by positivity)
+      have := abs_sub T m.2; linarith
+    refine le_trans (abs_add_le _ _) (le_trans (add_le_add h1 h2) ?_)
+    have hm0 : 0 ≤ |m.2| := abs_nonneg _
+    have hPb : P * (1 + M.u) ≤ P * b M := mul_le_mul_of_nonneg_left hb (by linarith)
+    have e5 : (P * b M - 1) * (A + |m.2|) - ((P - 1) * A * (1 + M.u) + (A + |m.2|) * M.u)
+        = (P * b M - P * (1 + M.u)) * A + (P * b M - 1 - M.u) * |m.2| := by ring
+    have h6 : 0 ≤ (P * b M - P * (1 + M.u)) * A := mul_nonneg (by linarith) hA0
+    have h7 : 0 ≤ (P * b M - 1 - M.u) * |m.2| := by
+      refine mul_nonneg ?_ hm0
+      nlinarith
+    linarith
+
 /-! ### the approximate min* step -/
 
 theorem exp_neg_diff {a c : ℝ} (_hac : a ≤ c) : Real.exp (-a) - Real.exp (-c) ≤ (c - a) * Real.exp (-a) := by
